@@ -286,7 +286,7 @@ def harness_list():
 class OpsUnit:
     engine = "kani"
     uid = "c05_ops"
-    props = ["C05", "C17", "C02", "C06"]
+    props = ["C05", "C17", "C02", "C06", "C01"]
     title = "numeric operators: exact value / promoted kind / failure, all operand values (K-t)"
     timeout = 3000
     assumes = [
@@ -322,7 +322,7 @@ class OpsUnit:
         obls = []
         for n, call, oid, kind in hs:
             r = per.get(n)
-            o5 = Obl(oid, ["C05", "C06"] + (["C02"] if kind != "fail" else []), fn=n, engine="kani/cbmc", desc=f"{call}: all operand values of the two kinds")
+            o5 = Obl(oid, ["C05", "C06", "C01"] + (["C02"] if kind != "fail" else []), fn=n, engine="kani/cbmc", desc=f"{call}: all operand values of the two kinds")
             parts = oid.split(".")
             o17 = Obl("C17.nopanic." + ".".join(parts[1:]), ["C17"], fn=n, engine="kani/cbmc",
                       desc=f"no Rust panic (overflow, division by zero, ...) inside the operator for any operand values [{call}]")
